@@ -838,7 +838,7 @@ TRANSLATED = {
                                 "(src_levinson_durbin_is_model)",
     "lazy_lpc.lpc.kautocor": "shallow: Gen.lpc_kautocor = Model kautocor (src_kautocor_is_model)",
     "lazy_lpc.lpc.kcovar": "shallow: closure inner, the while-True loop as a fuel recursion with the comparisons of the "
-                           "stability test as emitted predicates = Model kcovar (src_kcovar_*_is_model)",
+                           "stability test as emitted predicates = Model kcovar (src_kcovar_inner_is_model, src_kcovar_is_model)",
     "lazy_lpc @lpc.strategy names": "table: Gen.strategyNames = Model strategyNames (src_strategy_names_is_model, decide)",
 }
 NOT_TRANSLATED = {
